@@ -153,6 +153,30 @@ func registerFS(ip *Interp) {
 		const oCreate, oTrunc = 0x40, 0x200
 		return open(ip, name, fl.Val&oTrunc != 0, fl.Val&oCreate != 0)
 	})
+	stub("os.Open", func(ip *Interp, fr *frame, a []Value) Value {
+		return open(ip, ip.concStr(a[0], "file name"), false, false)
+	})
+	stub("(*os.File).Read", func(ip *Interp, fr *frame, a []Value) Value {
+		h := a[0].(*Native).V.(*fsHandle)
+		sl := a[1].(Slice)
+		f := ip.fs.files[h.name]
+		if f == nil || h.closed {
+			return Tuple{ip.intC(0), ip.fsErr("read "+h.name+": file already closed", false)}
+		}
+		if sl.Len == 0 {
+			return Tuple{ip.intC(0), Iface{}}
+		}
+		if h.off >= len(f.data.B) {
+			eof := ip.Prog.ImportedPackage("io").Var("EOF")
+			return Tuple{ip.intC(0), *ip.global(eof)}
+		}
+		n := min(sl.Len, len(f.data.B)-h.off)
+		for i := 0; i < n; i++ {
+			ip.write(sl.at(i), f.data.B[h.off+i])
+		}
+		h.off += n
+		return Tuple{ip.intC(int64(n)), Iface{}}
+	})
 	stub("os.Create", func(ip *Interp, fr *frame, a []Value) Value {
 		return open(ip, ip.concStr(a[0], "file name"), true, true)
 	})
